@@ -139,6 +139,15 @@ func c08SignRunECDSA(a []string) string {
 	if err != nil {
 		return "nofixture"
 	}
+	fetchers := []ecdsaSigning.SaveDataFetcher{}
+	for _, i := range sub {
+		fetchers = append(fetchers, keyshare.NewECDSAKeyshareStore(fmt.Sprintf("%s/tss/test/keyshares/%d.keyshare", repoRoot(), i)))
+	}
+	return c08SignECDSAWith(sub, fetchers, all, digest, coord, seed, "c08-"+a[2][:8]+"-"+a[4])
+}
+
+// one real ECDSA signing session of the members `sub` (indexes into all) holding the shares behind `fetchers`
+func c08SignECDSAWith(sub []int, fetchers []ecdsaSigning.SaveDataFetcher, all []peer.ID, digest []byte, coord int, seed uint64, sid string) string {
 	subset := []peer.ID{}
 	for _, i := range sub {
 		subset = append(subset, all[i])
@@ -148,7 +157,6 @@ func c08SignRunECDSA(a []string) string {
 	defer close(net.done)
 	ctx, cancel := context.WithCancel(context.Background())
 	defer cancel()
-	sid := "c08-" + a[2][:8] + "-" + a[4]
 	type res struct {
 		pos int
 		v   interface{}
@@ -158,7 +166,7 @@ func c08SignRunECDSA(a []string) string {
 	var pub *ecdsa.PublicKey
 	procs := []*ecdsaSigning.Signing{}
 	for pos, i := range sub {
-		fetcher := keyshare.NewECDSAKeyshareStore(fmt.Sprintf("%s/tss/test/keyshares/%d.keyshare", repoRoot(), i))
+		fetcher := fetchers[pos]
 		k, err := fetcher.GetKeyshare()
 		if err != nil {
 			return "nofixture"
@@ -667,9 +675,14 @@ func genC08Runs(g *G) {
 	copy(tw, g.Bytes(32))
 	tw[0] &= 0x7f
 	g.Emit("signrun", "frost", subsets[g.Intn(6)], digest(), hex.EncodeToString(tw), itoa(1+g.Intn(1000)))
+	// real ECDSA refreshes that RAISE and then LOWER the threshold, then threshold+1 holders sign with the refreshed shares
+	g.Emit("resharerun", "ecdsa", "2,1", itoa(1+g.Intn(1000)))
 	if !g.Thorough() {
 		return
 	}
+	g.Emit("resharerun", "ecdsa", "2", itoa(1+g.Intn(1000)))
+	g.Emit("resharerun", "ecdsa", "1,2,1", itoa(1+g.Intn(1000)))
+	g.Emit("resharerun", "ecdsa", "2,1,1", itoa(1+g.Intn(1000)))
 	for _, s := range subsets {
 		for c := 0; c < 2; c++ {
 			g.Emit("signrun", "ecdsa", s, digest(), itoa(c), itoa(1+g.Intn(1000)))
